@@ -346,4 +346,80 @@ theorem sqlite_readonly_never_mutates (H : D → D) (s : Sql D) (op : Op D) (hm 
 example : (DataStoreSqlite.reopen (DataStoreSqlite.run id (DataStoreSqlite.Sql.create .w) [.write idA (1 : Nat)]) .r).mode = .r := by
   decide
 
+/-! ## additions of the audit (non-vacuity of the `Sim` hypotheses, what `files` leaves out) -/
+
+/-- the `Sim` hypothesis of `op_on_id_is_local_partial` / `append_never_overwrites_partial` is
+    inhabited by a non-trivial state: the store after the witness history (two not-completed records
+    with suffix-related names written, one retired by a completed write), with a further safe
+    operation naming `ba` -/
+example : Sim (id : Nat → Nat) fasta [idA, idBA, idAfasta] (run id (Dir.create .w fasta) witness)
+      (specRun .directory fasta (Dict.empty .w) witness) ∧
+    safe fasta [idA, idBA, idAfasta] (specRun .directory fasta (Dict.empty .w) witness) (.write idBA (7 : Nat)) = true ∧
+    opId (.write idBA 7 : Op Nat) = some idBA ∧ aFasta ≠ cN fasta idBA ∧ aFasta ≠ ncN idBA :=
+  ⟨run_sim (by decide) witness _ _ (sim_create .w) (by decide), by decide, by decide, by decide, by decide⟩
+
+/-- … and in APPEND mode with stored records of both kinds (`append_never_overwrites_partial`) -/
+example : Sim (id : Nat → Nat) fasta [idA, idBA, idAfasta] (run id (Dir.create .a fasta) witness)
+      (specRun .directory fasta (Dict.empty .a) witness) ∧
+    (run id (Dir.create .a fasta) witness : Dir Nat).mode = .a ∧
+    get (run id (Dir.create .a fasta) witness : Dir Nat).root aFasta = some 3 ∧
+    get (run id (Dir.create .a fasta) witness : Dir Nat).nc baJson = some 1 ∧
+    safe fasta [idA, idBA, idAfasta] (specRun .directory fasta (Dict.empty .a) witness) (.write idBA (7 : Nat)) = true :=
+  ⟨run_sim (by decide) witness _ _ (sim_create .a) (by decide), by decide, by decide, by decide, by decide⟩
+
+/-- `files` in `readonly_never_mutates` are the four file tables; the EXISTENCE of the
+`not_completed` sub-directory (`ncDir`) is not among them, and it does change on a read-only store:
+`write_not_completed` runs `mkdir(parents=True, exist_ok=True)` BEFORE `_check_writable` raises.
+(Replayed on the real class: `DataStoreDirectory(p, mode=Mode.r).write_not_completed(...)` raises
+`IOError` and leaves a new empty `not_completed/` directory; `write_log` does the same for `logs/`.) -/
+theorem readonly_write_nc_creates_dir_counter :
+    let s : Dir Nat := { (Dir.create .r fasta : Dir Nat) with ncDir := false }
+    s.mode = .r ∧ (step id s (.writeNc idA 1)).2 = .err .ioError ∧
+    s.ncDir = false ∧ (step id s (.writeNc idA 1)).1.ncDir = true := by decide
+
+open CogentModel.DataStoreSqlite in
+/-- stronger form of `sqlite_readonly_never_mutates`: every PERSISTENT component of the database —
+the two tables, the `state.lock_pid` cell and the existence of the file — is unchanged by any
+operation on a read-only SQLite store (only the in-memory connection flag and caches may change). -/
+theorem sqlite_readonly_never_mutates_db (H : D → D) (s : Sql D) (op : Op D) (hm : s.mode = .r) :
+    (DataStoreSqlite.step H s op).1.rows = s.rows ∧ (DataStoreSqlite.step H s op).1.logRows = s.logRows ∧
+    (DataStoreSqlite.step H s op).1.locked = s.locked ∧ (DataStoreSqlite.step H s op).1.fileExists = s.fileExists := by
+  have hc : (connect s).1.rows = s.rows ∧ (connect s).1.logRows = s.logRows ∧ (connect s).1.mode = .r ∧
+      (connect s).1.locked = s.locked ∧ (connect s).1.fileExists = s.fileExists := by
+    unfold connect; simp only [hm, if_true]
+    split
+    · exact ⟨rfl, rfl, hm, rfl, rfl⟩
+    · split
+      · exact ⟨rfl, rfl, rfl, rfl, rfl⟩
+      · exact ⟨rfl, rfl, hm, rfl, rfl⟩
+  cases op with
+  | write i data => simp [DataStoreSqlite.step, DataStoreSqlite.write, checkWritable, hm]
+  | writeNc i data => simp [DataStoreSqlite.step, DataStoreSqlite.writeNc, checkWritable, hm]
+  | writeLog i data => simp [DataStoreSqlite.step, DataStoreSqlite.writeLog, checkWritable, hm]
+  | drop i =>
+    simp only [DataStoreSqlite.step, DataStoreSqlite.dropNc]
+    generalize hx : connect s = x at hc
+    obtain ⟨s1, e⟩ := x
+    cases e with
+    | some e => exact ⟨hc.1, hc.2.1, hc.2.2.2.1, hc.2.2.2.2⟩
+    | none =>
+      simp only at hc
+      simp [hc.2.2.1, hc.1, hc.2.1, hc.2.2.2.1, hc.2.2.2.2]
+  | reopen m => simp [DataStoreSqlite.step, DataStoreSqlite.reopen, hc.1, hc.2.1, hc.2.2.2.1, hc.2.2.2.2]
+  | observe =>
+    simp only [DataStoreSqlite.step, DataStoreSqlite.observe]
+    generalize hx : connect s = x at hc
+    obtain ⟨s1, e⟩ := x
+    cases e with
+    | some e => exact ⟨hc.1, hc.2.1, hc.2.2.2.1, hc.2.2.2.2⟩
+    | none =>
+      simp only at hc
+      simp only [DataStoreSqlite.populate]
+      split <;> split <;> simp [hc.1, hc.2.1, hc.2.2.2.1, hc.2.2.2.2]
+  | unlock => simp [DataStoreSqlite.step, DataStoreSqlite.unlock, hm]
+
+-- a read-only store on a LOCKED database with a completed and a not-completed row
+example : let s := DataStoreSqlite.reopen (DataStoreSqlite.run id (DataStoreSqlite.Sql.create .w) [.write idA (1 : Nat), .writeNc idB 2]) .r
+    s.mode = .r ∧ s.locked = true ∧ s.fileExists = true ∧ s.rows.length = 2 := by decide
+
 end CogentModel.C13
